@@ -8,6 +8,8 @@ Case kinds (all through the real classes of /repo):
   partition the same data set fed through every composition into batches         -> Welford.acase
   rejection real elfi.Rejection(...).sample with an AdaptiveDistance and an OutputPool recording the
             simulated summaries; replayed as a script with only the end state observed -> Welford.acase
+  (adaptive / partition / sampler: the summaries are stored in a unit 2^e per column, e in -100..100, and in a storage
+   dtype per summary and per add_data call - float64/float32/intN/uintN/bool; the Coq case carries the numbers only)
   sampler   real sampler rounds on a model with an AdaptiveDistance node whose simulator logs every row it
             produces: consecutive elfi.Rejection runs (n_sim / quantile / threshold objectives, through
             sample() or a manual set_objective/iterate/extract_result loop with the node's store observed
@@ -32,7 +34,59 @@ def enc(a):
 
 
 def dec(d):
-    return np.array(d['v'], dtype=float)
+    """the numbers of an array description in its storage dtype ('dt'; binary64 when absent): the generator
+    only puts values there that the dtype holds exactly"""
+    return np.array(d['v'], dtype=d.get('dt', 'float64'))
+
+
+def sub(d, a, b, dt=None):
+    """rows a..b of an array description, optionally re-stored in another dtype that holds the same numbers"""
+    out = {'nd': d['nd'], 'v': d['v'][a:b]}
+    dt = dt or d.get('dt')
+    if dt and dt != 'float64':
+        out['dt'] = dt
+    return out
+
+
+INT_DTYPES = ['int8', 'int16', 'int32', 'int64', 'uint8', 'uint16', 'uint32', 'uint64']
+EXACT = 2 ** 53          # 64-bit integers are generated within +-2^53: the numbers binary64 (the transport) holds exactly
+
+
+def dtype_range(dt):
+    if dt == 'bool':
+        return 0, 1
+    ii = np.iinfo(dt)
+    return max(int(ii.min), -EXACT), min(int(ii.max), EXACT)
+
+
+def holders(lo, hi):
+    """storage dtypes (other than float32) that hold every integer of [lo, hi] exactly"""
+    return [dt for dt in INT_DTYPES if dtype_range(dt)[0] <= lo and hi <= dtype_range(dt)[1]] + ['float64']
+
+
+def unit_bucket(e):
+    return 'unit:2^0' if e == 0 else 'unit:2^%s%d..' % ('-' if e < 0 else '+', 10 * (abs(e) // 10))
+
+
+def stacked_dtype(batch):
+    try:
+        return np.column_stack([dec(x) for x in batch]).dtype
+    except ValueError:
+        return None
+
+
+def single_precision(ops):
+    """some adaptation round starts with a batch that column-stacks to a float32 array: the code then keeps
+    the running mean, M2, scale and weights of that round in float32 (relative accuracy ~1e-7, not 1e-16)"""
+    first = True
+    for op in ops:
+        if op[0] in ('add', 'batch'):
+            if first and stacked_dtype(op[1]) in (np.dtype('float32'), np.dtype('float16')):
+                return True
+            first = False
+        elif op[0] in ('update', 'init'):
+            first = True
+    return False
 
 
 def carr(d):
@@ -142,21 +196,34 @@ def call_euclid_col(X, Y):
     return np.sqrt(((X - Y) ** 2).sum(axis=1)).reshape(-1, 1)
 
 
-def take_cols(lo, hi, scalar, y):
-    """summary operation of the sampler models: a pure function of the simulator output"""
-    return y[:, lo].copy() if scalar else y[:, lo:hi].copy()
+def take_cols(lo, hi, scalar, cast, y):
+    """summary operation of the sampler models: a pure function of the simulator output; `cast` =
+    (integer dtype, multiplier, offset) stores the summary as rounded integers of that dtype"""
+    z = y[:, lo].copy() if scalar else y[:, lo:hi].copy()
+    if cast:
+        dt, mult, offset = cast
+        lo_, hi_ = dtype_range(dt)
+        z = np.clip(np.rint(z * mult + offset), lo_, hi_).astype(dt)
+    return z
 
 
-def sampler_slices(shapes):
+def sampler_slices(case):
     out, c = [], 0
-    for w in shapes:
-        out.append((c, c + max(w, 1), w == 0))
+    casts = case.get('casts') or [None] * len(case['shapes'])
+    for w, cast in zip(case['shapes'], casts):
+        out.append((c, c + max(w, 1), w == 0, cast))
         c += max(w, 1)
     return out
 
 
 def sampler_sim_rows(mu, noise, case):
-    return np.array(case['off']) + mu[:, None] * np.array(case['coef']) + noise * np.array(case['sd'])
+    y = np.array(case['off']) + mu[:, None] * np.array(case['coef']) + noise * np.array(case['sd'])
+    # the unit of every column: an exact power of two
+    return y * np.array([2.0 ** e for e in case.get('unit_exp', [0] * len(case['sd']))])
+
+
+def sampler_obs_row(case):
+    return np.array([case['obs']], dtype=float) * np.array([2.0 ** e for e in case.get('unit_exp', [0] * len(case['sd']))])
 
 
 def build_sampler_model(case, log):
@@ -171,10 +238,10 @@ def build_sampler_model(case, log):
         y = sampler_sim_rows(np.asarray(mu, dtype=float).reshape(-1), random_state.randn(batch_size, W), case)
         log.append(y.copy())
         return y
-    Y = elfi.Simulator(sim, mu, observed=np.array([case['obs']], dtype=float), name='Y')
+    Y = elfi.Simulator(sim, mu, observed=sampler_obs_row(case), name='Y')
     sums = []
-    for i, (lo, hi, sc) in enumerate(sampler_slices(case['shapes'])):
-        sums.append(elfi.Summary(partial(take_cols, lo, hi, sc), Y, name='s%d' % i))
+    for i, (lo, hi, sc, cast) in enumerate(sampler_slices(case)):
+        sums.append(elfi.Summary(partial(take_cols, lo, hi, sc, cast), Y, name='s%d' % i))
     ad = elfi.AdaptiveDistance(*sums, name='ad')
     return m, ad, [x.name for x in sums]
 
@@ -196,13 +263,23 @@ class C12(PropCheck):
             '(objective n_sim / quantile / thresholds on any subset of the nested distances, batch sizes 1..10 changing '
             'between rounds, sample() or set_objective/iterate/extract_result with the store observed after every batch) '
             'or one AdaptiveDistanceSMC run (2-3 populations, batch sizes 1..8, quantile .34/.5/.75); replayed as '
-            'OInit, OBatch(all logged rows, acceptance mask)*, OUpdate, OSorted, OGen per round.  non-trivial = dist case '
+            'OInit, OBatch(all logged rows, acceptance mask)*, OUpdate, OSorted, OGen per round.  storage of the adaptive '
+            'summaries (adaptive / partition / sampler kinds): every column in a unit 2^e, e in -100..100 (about 1e-30..1e30, '
+            'exact powers of two; observed values and probes in the same unit; columns of one node in different units), '
+            'and every summary in a storage dtype float64 / float32 / int8..int64 / uint8..uint64 / bool (integers over the '
+            'whole range of the dtype, its top part, a window around a random centre, or small; 64-bit ones within +-2^53), '
+            'every add_data call in the home dtype or another dtype holding the same numbers (mixed across the batches of a '
+            'round); the model gets the numeric values only; scripts with a float32 round are compared python-side at 1e-4; '
+            'sampler summaries as rounded integers of int8..uint64.  non-trivial = dist case '
             'with >=2 columns after stacking or kwargs; adaptive case with >=2 batches in some round and an update followed '
             'by a generate; sampler case with >=2 batches in some round; distinct by full input')
     trusted = ('scipy.spatial.distance.minkowski(u, v, p, w) (pairwise function, not cdist) is the oracle for non-integer p only; '
                'all other metrics are specified exactly in Coq (power form d^p over Q)',
                'numpy column_stack / atleast_2d / concatenate / broadcasting are modelled by their documented meaning on nested lists',
-               'tolerance: relative 1e-9 between binary64 results and exact rationals (squares compared for sqrt quantities)')
+               'tolerance: relative 1e-9 between binary64 results and exact rationals (squares compared for sqrt quantities); '
+               'relative 1e-4 (python-side, binary64 numpy reference) for scripts in which a round starts with a float32 batch',
+               'integer / bool / float32 arrays are handed to the code as numpy arrays of that dtype built from values the dtype '
+               'holds exactly; the Coq case carries the numbers only')
 
     def __init__(self, seed, tier):
         super().__init__(seed, tier)
@@ -219,22 +296,34 @@ class C12(PropCheck):
             return round(r.uniform(-5, 5), 3)
         return r.uniform(-5, 5)
 
-    def distinct_col(self, n, style, scale=1.0, shift=0.0):
+    def colval(self, style, spec):
+        """one value of a column.  spec: None (plain), (scale, shift) (binary64 column, any style),
+        ('dy', scale, shift) (dyadic values k/8 * scale + shift with scale and shift small multiples of a
+        power of two: exactly representable in float32 too), ('int', lo, hi) (an integer of [lo, hi])"""
+        if spec is None:
+            return self.val(style)
+        if spec[0] == 'int':
+            return float(self.rng.randint(spec[1], spec[2]))
+        if spec[0] == 'dy':
+            return self.val('dyadic') * spec[1] + spec[2]
+        return self.val(style) * spec[0] + spec[1]
+
+    def distinct_col(self, n, style, spec=None):
         """n values with at least two different ones when n >= 2 (non-degenerate variance)"""
         while True:
-            v = [self.val(style) * scale + shift for _ in range(n)]
+            v = [self.colval(style, spec) for _ in range(n)]
             if n < 2 or len(set(v)) >= 2:
                 return v
 
     def matrix(self, M, w, style, scales=None):
-        cols = [self.distinct_col(M, style, *(scales[j] if scales else (1.0, 0.0))) for j in range(w)]
+        cols = [self.distinct_col(M, style, scales[j] if scales else None) for j in range(w)]
         return [[cols[j][i] for j in range(w)] for i in range(M)]
 
-    def summaries_for(self, M, shapes, style, scales=None):
-        """shapes: list of widths; width 0 means a 1-d (scalar-per-row) summary"""
+    def summaries_for(self, M, shapes, style, scales=None, dts=None):
+        """shapes: list of widths; width 0 means a 1-d (scalar-per-row) summary; dts: storage dtype per summary"""
         out = []
         k = 0
-        for w in shapes:
+        for i, w in enumerate(shapes):
             ww = max(w, 1)
             sc = scales[k:k + ww] if scales else None
             k += ww
@@ -243,20 +332,101 @@ class C12(PropCheck):
                 out.append({'nd': 1, 'v': [row[0] for row in m]})
             else:
                 out.append({'nd': 2, 'v': m})
+            if dts and dts[i] != 'float64':
+                out[-1]['dt'] = dts[i]
         return out
 
-    def observed_for(self, shapes, style, form=None):
+    def observed_for(self, shapes, style, form=None, scales=None, dts=None):
         r = self.rng
         out = []
-        for w in shapes:
+        k = 0
+        for i, w in enumerate(shapes):
+            ww = max(w, 1)
+            sc = scales[k:k + ww] if scales else [None] * ww
+            k += ww
             if w == 0:
                 f = form or r.choice(['0d', '1d', '1d', '2d'])
-                x = self.val(style)
+                x = self.colval(style, sc[0])
                 out.append({'0d': {'nd': 0, 'v': x}, '1d': {'nd': 1, 'v': [x]}, '2d': {'nd': 2, 'v': [[x]]}}[f])
             else:
-                v = [self.val(style) for _ in range(w)]
+                v = [self.colval(style, sc[j]) for j in range(w)]
                 f = form or r.choice(['2d', '2d', '1d'])
                 out.append({'nd': 2, 'v': [v]} if f != '1d' else {'nd': 1, 'v': v})
+            if dts and dts[i] != 'float64':
+                out[-1]['dt'] = dts[i]
+        return out
+
+    # ---- storage dtype and unit of the adaptive summaries ---------------------------------------------
+    def int_spec(self, dt):
+        """('int', lo, hi) within the range of dt: the whole range, its top part, a window around a random centre
+        (half-width >= |centre|/40, so that mean/std stays far from the cancellation limit) or small values"""
+        r = self.rng
+        L, H = dtype_range(dt)
+        if dt == 'bool':
+            return ('int', 0, 1)
+        how = r.choice(['full', 'high', 'high', 'mid', 'mid', 'small'])
+        if how == 'full':
+            lo, hi = L, H
+        elif how == 'high':
+            lo, hi = H - (H - L) // r.choice([4, 16]), H
+        elif how == 'mid':
+            c = r.randint(L // 2, H // 2)
+            h = max(3, abs(c) // r.choice([2, 10, 40]))
+            lo, hi = max(L, c - h), min(H, c + h)
+        else:
+            lo, hi = max(L, -6), min(H, 12)
+        self.bump('adaptive:int_range=%s' % how)
+        return ('int', lo, hi)
+
+    def choose_storage(self, shapes, mode, allow_f32=True):
+        """per summary a home dtype, per column a value spec; mode: plain / units / dtype / mixed.
+        units: binary64 columns in the unit 2^e, e in -100..100 (about 1e-30 .. 1e30; float32 columns
+        2^-40..2^40); dtype: at least one summary stored as float32 / intN / uintN / bool"""
+        r = self.rng
+        nonf64 = INT_DTYPES + ['bool'] + (['float32', 'float32'] if allow_f32 else [])
+        dts = ['float64'] * len(shapes)
+        if mode in ('dtype', 'mixed'):
+            dts = [r.choice(nonf64 + ['float64'] * 3) for _ in shapes]
+            if all(d == 'float64' for d in dts):
+                dts[r.randrange(len(dts))] = r.choice(nonf64)
+        scales = []
+        for w, dt in zip(shapes, dts):
+            for _ in range(max(w, 1)):
+                e = 0
+                if mode in ('units', 'mixed') and r.random() < 0.8:
+                    e = r.choice([-100, -70, -55, -40, -20, 20, 40, 70, 100, r.randint(-100, 100)])
+                if dt == 'float64':
+                    u = 2.0 ** e
+                    scales.append((r.choice([1.0, 1.0, 10.0, 0.1, 100.0]) * u, r.choice([0.0, 0.0, 3.0, -20.0]) * u))
+                elif dt == 'float32':
+                    e = max(-40, min(40, e))
+                    u = 2.0 ** e
+                    scales.append(('dy', r.choice([1.0, 4.0, 0.25]) * u, r.choice([0.0, 0.0, 3.0]) * u))
+                else:
+                    e = 0
+                    scales.append(self.int_spec(dt))
+                self.bump('adaptive:' + unit_bucket(e))
+            self.bump('adaptive:dtype=' + dt)
+        return dts, scales
+
+    def batch_dtypes(self, shapes, dts, scales, p=0.25):
+        """the storage dtype of every summary for ONE add_data call: the home dtype, or (probability p) another
+        dtype that holds the same numbers (mixed dtypes across the batches of a round)"""
+        r = self.rng
+        out, k = [], 0
+        for w, dt in zip(shapes, dts):
+            ww = max(w, 1)
+            alt = []
+            if dt == 'float32':
+                alt = ['float64']
+            elif dt != 'float64':
+                alt = [a for a in holders(min(s[1] for s in scales[k:k + ww]), max(s[2] for s in scales[k:k + ww])) if a != dt]
+            k += ww
+            if alt and r.random() < p:
+                out.append(r.choice(alt))
+                self.bump('adaptive:batch_stored_in_other_dtype')
+            else:
+                out.append(dt)
         return out
 
     # ---- generators --------------------------------------------------------------------------------
@@ -343,7 +513,7 @@ class C12(PropCheck):
             self.bump('kw:metric=' + metric)
             yield dict(kind='kw', metric=metric, kwargs=kw, order=keys, extra_name=r.random() < 0.5)
 
-    def script_round(self, shapes, style, scales, nb_max=4, bs_max=5):
+    def script_round(self, shapes, style, scales, nb_max=4, bs_max=5, dts=None):
         r = self.rng
         nb = r.randint(1, nb_max)
         sizes = [r.choice([1, 1, 2, 3, bs_max]) for _ in range(nb)]
@@ -352,15 +522,13 @@ class C12(PropCheck):
         W = sum(max(w, 1) for w in shapes)
         # build the round's data column-wise so every column is non-degenerate, then split
         N = sum(sizes)
-        full = self.summaries_for(N, shapes, style, scales)
+        full = self.summaries_for(N, shapes, style, scales, dts)
         ops = []
         a = 0
         for s in sizes:
-            batch = []
-            for d in full:
-                batch.append({'nd': d['nd'], 'v': d['v'][a:a + s]})
+            bd = self.batch_dtypes(shapes, dts, scales) if dts else [None] * len(full)
+            ops.append(['add', [sub(d, a, a + s, dt) for d, dt in zip(full, bd)]])
             a += s
-            ops.append(['add', batch])
         return ops
 
     def gen_adaptive(self, n):
@@ -369,25 +537,29 @@ class C12(PropCheck):
             style = r.choice(['int', 'dyadic', 'dec', 'float', 'float'])
             shapes = [r.choice([0, 0, 1, 2, 3]) for _ in range(r.randint(1, 3))]
             W = sum(max(w, 1) for w in shapes)
-            scales = [(r.choice([1.0, 1.0, 10.0, 0.1, 100.0]), r.choice([0.0, 0.0, 3.0, -20.0])) for _ in range(W)]
-            obs = self.observed_for(shapes, style)
-            probe = self.summaries_for(r.choice([1, 2, 4]), shapes, style, scales)
+            mode = r.choice(['plain', 'plain', 'units', 'units', 'dtype', 'dtype', 'mixed'])
+            dts, scales = self.choose_storage(shapes, mode)
+            if mode == 'plain':
+                obs = self.observed_for(shapes, style)         # as before: observed values of order one
+            else:
+                obs = self.observed_for(shapes, style, None, scales, dts)
+            probe = self.summaries_for(r.choice([1, 2, 4]), shapes, style, scales, dts)
             ops = []
             rounds = r.randint(1, 3)
             bad = None
-            if r.random() < 0.2:
+            if r.random() < 0.2 and 'float32' not in dts:
                 bad = r.choice(['update_first', 'update_twice', 'init_mid', 'rows'])
             if bad == 'update_first':
                 ops.append(['update'])
             if r.random() < 0.5:
                 ops.append(['gen', probe])
             for k in range(rounds):
-                rnd = self.script_round(shapes, style, scales)
+                rnd = self.script_round(shapes, style, scales, dts=dts)
                 if bad == 'init_mid' and k == 0:
-                    rnd = rnd + [['init']] + self.script_round(shapes, style, scales)
+                    rnd = rnd + [['init']] + self.script_round(shapes, style, scales, dts=dts)
                 if bad == 'rows' and k == 0 and len(shapes) >= 2:
                     b = [dict(x) for x in rnd[0][1]]
-                    b[0] = self.summaries_for(len(b[0]['v']) + 1, [shapes[0]], style)[0]
+                    b[0] = self.summaries_for(len(b[0]['v']) + 1, [shapes[0]], style, scales[:max(shapes[0], 1)], dts[:1])[0]
                     rnd.insert(r.randrange(len(rnd) + 1), ['add', b])
                 ops.extend(rnd)
                 if r.random() < 0.3:
@@ -397,12 +569,13 @@ class C12(PropCheck):
                     ops.append(['update'])
                 ops.append(['gen', probe])
                 if r.random() < 0.4:
-                    ops.append(['gen', self.summaries_for(r.choice([1, 3]), shapes, style, scales)])
+                    ops.append(['gen', self.summaries_for(r.choice([1, 3]), shapes, style, scales, dts)])
                 if r.random() < 0.2:
                     ops.append(['init'])
             self.bump('adaptive:rounds=%d' % rounds)
             self.bump('adaptive:width=%d' % W)
             self.bump('adaptive:malformed=%s' % bad)
+            self.bump('adaptive:mode=%s' % mode)
             yield dict(kind='adaptive', observed=obs, ops=ops, bad=bad)
 
     def gen_partition(self, n_sets, max_rows):
@@ -412,17 +585,26 @@ class C12(PropCheck):
             style = ['dyadic', 'float', 'dec', 'int'][ds % 4]
             shapes = [[0], [0, 2], [3], [1, 0], [2, 2]][ds % 5]
             W = sum(max(w, 1) for w in shapes)
-            scales = [(r.choice([1.0, 10.0, 0.1]), r.choice([0.0, 5.0])) for _ in range(W)]
-            obs = self.observed_for(shapes, style)
+            # every data set has its own storage: in the unit 2^e per column / integer, bool dtypes (every batch of
+            # every composition in the home dtype or another one holding the same numbers) / plain
+            mode = ['units', 'dtype', 'plain', 'mixed'][ds % 4]
+            if mode == 'plain':
+                dts, scales = None, [(r.choice([1.0, 10.0, 0.1]), r.choice([0.0, 5.0])) for _ in range(W)]
+                obs = self.observed_for(shapes, style)
+            else:
+                dts, scales = self.choose_storage(shapes, mode, allow_f32=False)
+                obs = self.observed_for(shapes, style, None, scales, dts)
             for N in range(2, max_rows + 1):
-                full = self.summaries_for(N, shapes, style, scales)
-                probe = [{'nd': d['nd'], 'v': d['v'][:2]} for d in full]
+                full = self.summaries_for(N, shapes, style, scales, dts)
+                probe = [sub(d, 0, 2) for d in full]
                 for cuts in itertools.product([0, 1], repeat=N - 1):
                     bounds = [0] + [i + 1 for i, c in enumerate(cuts) if c] + [N]
                     ops = []
                     for a, b in zip(bounds, bounds[1:]):
-                        ops.append(['add', [{'nd': d['nd'], 'v': d['v'][a:b]} for d in full]])
+                        bd = self.batch_dtypes(shapes, dts, scales, 0.3) if dts else [None] * len(full)
+                        ops.append(['add', [sub(d, a, b, dt) for d, dt in zip(full, bd)]])
                     ops += [['update'], ['gen', probe]]
+                    self.bump('partition:mode=%s' % mode)
                     self.bump('partition:rows=%d' % N)
                     self.bump('partition:batches=%d' % (len(bounds) - 1))
                     yield dict(kind='adaptive', observed=obs, ops=ops, bad=None,
@@ -455,6 +637,30 @@ class C12(PropCheck):
             obs = [round(off[j] + 2 * coef[j] + r.uniform(-1, 1) * sd[j], 3) for j in range(W)]
             case = dict(kind='sampler', driver=driver, shapes=shapes, sd=sd, coef=coef, off=off, obs=obs,
                         seed=r.randrange(10 ** 6))
+            # storage of the summaries the sampler hands to the node: the unit 2^e of every simulator column
+            # and, per summary, an integer dtype (rounded multiples filling a fair part of the dtype's range)
+            smode = r.choice(['plain', 'units', 'units', 'int', 'mixed'])
+            if smode in ('units', 'mixed'):
+                case['unit_exp'] = [r.choice([0, -100, -70, -55, -30, 30, 70, 100]) for _ in range(W)]
+            if smode in ('int', 'mixed'):
+                casts, c0 = [], 0
+                for w in shapes:
+                    dt = r.choice(INT_DTYPES + [None, None])
+                    if dt is None:
+                        casts.append(None)
+                    else:
+                        L, H = dtype_range(dt)
+                        bits = int(np.log2(H + 1))
+                        casts.append([dt, float(2 ** max(bits - 6, 0)), float((H + 1) // 2 if L == 0 else 0)])
+                        for j in range(c0, c0 + max(w, 1)):
+                            if 'unit_exp' in case:
+                                case['unit_exp'][j] = 0
+                    c0 += max(w, 1)
+                    self.bump('sampler:summary_dtype=%s' % dt)
+                case['casts'] = casts
+            for e in case.get('unit_exp', []):
+                self.bump('sampler:' + unit_bucket(e))
+            self.bump('sampler:storage=%s' % smode)
             if driver == 'rejection':
                 rounds = []
                 for k in range(r.choice([1, 2, 2, 3])):
@@ -677,19 +883,28 @@ class C12(PropCheck):
         import elfi
         log = []
         m, ad, names = build_sampler_model(case, log)
-        slices = sampler_slices(case['shapes'])
-        obs_row = np.array([case['obs']], dtype=float)
+        slices = sampler_slices(case)
+        obs_row = sampler_obs_row(case)
         observed = []
-        for (lo, hi, sc) in slices:
-            o = take_cols(lo, hi, sc, obs_row)
+        for sl in slices:
+            o = take_cols(*sl, obs_row)
             # the observed summaries as the node sees them: (1,) for a scalar summary, (1, w) for a vector one
             observed.append(enc(o))
 
         def summaries_of(y):
-            return [enc(take_cols(lo, hi, sc, y)) for (lo, hi, sc) in slices]
+            return [enc(take_cols(*sl, y)) for sl in slices]
+
+        def split_summ(srows):
+            """column-stacked summaries (as the sampler returns them) -> one array per summary"""
+            srows = np.asarray(srows, dtype=float)
+            return [enc(take_cols(lo, hi, sc, None, srows)) for (lo, hi, sc, cast) in slices]
+
+        def summ_rows(y):
+            """simulator rows -> the column-stacked summaries (numeric values)"""
+            return np.column_stack([np.asarray(take_cols(*sl, y), dtype=float).reshape(len(y), -1) for sl in slices])
 
         def values_of(y):
-            return {nm: take_cols(lo, hi, sc, y) for nm, (lo, hi, sc) in zip(names, slices)}
+            return {nm: take_cols(*sl, y) for nm, sl in zip(names, slices)}
 
         def nested(y):
             """all nested distances of the rows y, as an (len(y), number of functions) array"""
@@ -724,8 +939,8 @@ class C12(PropCheck):
 
         def after_update(returned, dcol, rows):
             """observations once a round's update_distance has run: weights, returned distance column, probe"""
-            ops.append(['sorted', summaries_of(returned)])
-            member = all(any(np.array_equal(rw, x) for x in rows) for rw in returned)
+            ops.append(['sorted', split_summ(returned)])
+            member = all(any(np.array_equal(rw, x) for x in summ_rows(rows)) for rw in np.asarray(returned, dtype=float))
             obs.append(['sorted', np.asarray(dcol, dtype=float).reshape(-1).tolist(), bool(member)])
             ops.append(['gen', summaries_of(probe)])
             obs.append(['gen', enc(ad.generate(len(probe), with_values=values_of(probe)))])
@@ -835,8 +1050,8 @@ class C12(PropCheck):
                                     % (k, len(rows), pop.n_sim))
                 close_round(bidx, rows, thr)
                 ret = np.column_stack([np.asarray(pop.outputs[nm]).reshape(len(pop.outputs['ad']), -1) for nm in names])
-                member = all(any(np.array_equal(rw, x) for x in rows) for rw in ret)
-                ops[at] = ['sorted', summaries_of(ret)]
+                member = all(any(np.array_equal(rw, x) for x in summ_rows(rows)) for rw in np.asarray(ret, dtype=float))
+                ops[at] = ['sorted', split_summ(ret)]
                 obs[at] = ['sorted', np.asarray(pop.outputs['ad'], dtype=float).reshape(-1).tolist(), bool(member)]
                 thr = [np.inf] + [p.threshold for p in pops[:k + 1]]
         return dict(obs=obs, ops=ops, observed=observed, problems=problems, info=info)
@@ -871,6 +1086,10 @@ class C12(PropCheck):
             fails.append(('nonfinite', 'non-finite state or distance although every column of every round has positive variance'))
         if case['kind'] == 'dist' and not finite(out['out']):
             fails.append(('nonfinite', 'non-finite distance for finite inputs'))
+        if case['kind'] == 'adaptive' and case['bad'] is None and obs_finite(out['obs']) and single_precision(case['ops']) \
+                and not any(o[0] == 'crash' for o in out['obs']):
+            if worst_conditioning(case['ops']) <= self.SINGLE_ILL:
+                fails.extend(self.single_check(case, out))
         if (case['kind'] == 'adaptive' and case.get('dataset') and case['bad'] is None and obs_finite(out['obs'])
                 and worst_conditioning(case['ops']) <= ILL):
             # every composition of the same data gives the same scale (relative 1e-9) as the first one seen
@@ -881,6 +1100,65 @@ class C12(PropCheck):
                     fails.append(('partition_scale', 'scale differs (rel > 1e-9) from the scale obtained with another split of the same data'))
                     break
         return fails
+
+    SINGLE_RTOL = 1e-4
+    SINGLE_ILL = 100.0
+
+    def single_check(self, case, out):
+        """scripts with a float32 adaptation round (the code keeps mean, M2, scale and weights of such a round in
+        float32): the statement of `Welford.ok`, evaluated in binary64 numpy on the numeric values with the
+        float32 tolerance 1e-4 instead of the 1e-9 of the Coq predicates (conditioning (mean/std)^2 <= 100)"""
+        RT = self.SINGLE_RTOL
+        V = np.concatenate([np.atleast_2d(np.array(o['v'], dtype=float)) for o in case['observed']], axis=1)
+        rows, lastvar, vars_ = None, None, [None]
+
+        def stack(batch):
+            M = len(batch[0]['v'])
+            return np.hstack([np.array(x['v'], dtype=float).reshape(M, -1) for x in batch])
+
+        def near(a, b):
+            a, b = np.asarray(a, dtype=float), np.asarray(b, dtype=float)
+            return a.shape == b.shape and bool(np.all(np.abs(a - b) <= RT * np.abs(b)))
+
+        for op, o in zip(case['ops'], out['obs']):
+            if op[0] == 'add':
+                data = stack(op[1])
+                rows = data if rows is None else np.vstack([rows, data])
+                lastvar = rows.var(axis=0)
+                if o[0] != 'add':
+                    return [('single_add', 'add_data on float32 summaries did not succeed')]
+                n, mean, m2, scale = o[1:5]
+                mag = np.abs(rows).mean(axis=0)
+                if n != len(rows) or not near(scale, np.sqrt(lastvar)) or not near(m2, lastvar * len(rows)) \
+                        or len(mean) != len(mag) or not np.all(np.abs(np.array(mean) - rows.mean(axis=0)) <= RT * mag):
+                    return [('single_add', 'float32 round: count / mean / M2 / scale differ (rel > 1e-4) from those of '
+                             'all rows added in the round')]
+            elif op[0] == 'update':
+                if o[0] != 'update' or lastvar is None:
+                    return [('single_update', 'update_distance after a float32 round did not succeed')]
+                if rows is not None and not near(np.array(o[1]) * np.sqrt(lastvar), np.ones(len(lastvar))):
+                    return [('single_update', 'float32 round: weights are not 1/std (rel > 1e-4) of the rows of the round')]
+                vars_.append(lastvar)
+                rows = None
+                if o[2] != len(vars_) or not o[3]:
+                    return [('single_update', 'update_distance did not append exactly one function / reset the store')]
+            elif op[0] == 'init':
+                rows = None
+                if not o[1]:
+                    return [('single_update', 'init_adaptation_round did not reset the store')]
+            elif op[0] == 'gen':
+                if o[0] != 'gen' or o[1] is None:
+                    return [('single_gen', 'generate on float32 summaries did not succeed')]
+                U = stack(op[1])
+                D = np.array(o[1]['v'], dtype=float).reshape(len(U), -1)
+                if D.shape[1] != len(vars_) or (o[1]['nd'] == 1) != (len(vars_) == 1):
+                    return [('single_gen', 'not one distance per function')]
+                for c, var in enumerate(vars_):
+                    expd = np.sqrt(np.sum((U - V) ** 2 / (1.0 if var is None else var), axis=1))
+                    if not near(D[:, c], expd):
+                        return [('single_gen', 'float32 round: distance %d is not the Euclidean distance divided by the '
+                                 'scale of round %d (rel > 1e-4)' % (c, c))]
+        return []
 
     def classify(self, case, out, clause):
         return None
@@ -997,6 +1275,11 @@ class C12(PropCheck):
             if case['bad'] == 'degenerate':
                 return None
             ops, obs, observed = case['ops'], out['obs'], case['observed']
+        if kind == 'adaptive' and single_precision(ops):
+            # compared python-side with the float32 tolerance (py_check: single_check)
+            self.bump('adaptive:float32_round:%s' % ('py_checked' if worst_conditioning(ops) <= self.SINGLE_ILL
+                                                       else 'ill_conditioned_skipped'))
+            return None
         if worst_conditioning(ops) > ILL:
             self.bump('adaptive:ill_conditioned_skipped')
             return None
